@@ -8,7 +8,7 @@
    walks the whole dependency closure once per theorem). *)
 From Tetl Require Import Lib.Base C13.Float C13.Model C13.Spec
   C13.ProofsSign C13.ProofsSat C13.ProofsStr C13.ProofsFma C13.ProofsPop C13.ProofsSwap C13.ProofsCls
-  C13.ProofsFloor C13.ProofsCeilTrunc C13.ProofsRoundAway C13.ProofsRint C13.ProofsFmaExact C13.ProofsFmod C13.ProofsCodec C13.NonVac.
+  C13.ProofsFloor C13.ProofsCeilTrunc C13.ProofsRoundAway C13.ProofsRint C13.ProofsFmaExact C13.ProofsFmod C13.ProofsFmodTop C13.ProofsRemainder C13.ProofsCodec C13.NonVac.
 Local Open Scope Z_scope.
 
 (** * bit utilities *)
@@ -145,9 +145,23 @@ Theorem C13_fma_exact_product : forall f x y z, product_exact f x y -> ct_fma f 
 Proof. exact fma_exact_product. Qed.
 Print Assumptions C13_fma_exact_product.
 
-(** * fmod / remainder: the witnesses of the former findings (fmod(1e10f, 3.0f), remainder(5.0f, 3.0f),
-    fmod(5.0f, inf)) and the odd-subnormal cases now agree with the exact operations (evaluation; the
-    general statement is C13_fmod_remainder below when present, otherwise only tested) *)
+(** * fmod and remainder: gcem fmod_exact / remainder_check (what constant evaluation runs since the fix:
+    commits 57a95a0, 3d5fc50: binary long division with an inexact halving test, exact doubling,
+    Sterbenz subtractions; for remainder one comparison of r with the possibly ROUNDED |y| - r) against
+    C fmod and IEC 60559 remainder (what __builtin_fmod* / __builtin_remainder* compute), for EVERY pair
+    of values (zeros, subnormals, infinities, NaNs, any ratio of magnitudes) of EVERY format with
+    2 <= precision <= 64 < emax; the loop fuel (one iteration per binade) is never exhausted and a
+    zero result has the sign of x *)
+Theorem C13_fmod_remainder : forall f, fmt_ok f -> forall x y, valid f x = true -> valid f y = true ->
+  ct_fmod f x y = Ok (rt_fmod x y) /\ ct_remainder f x y = Ok (rt_remainder x y).
+Proof.
+  intros f Hf x y Hx Hy. exact (conj (fmod_ct_eq_rt f Hf x y Hx Hy) (remainder_ct_eq_rt f Hf x y Hx Hy)).
+Qed.
+Print Assumptions C13_fmod_remainder.
+
+(** * fmod / remainder: the inputs on which the code before the fix went wrong (fmod(1e10f, 3.0f) = 0,
+    remainder(5.0f, 3.0f) = 2, fmod(5.0f, inf) = NaN in constant evaluation) and the odd-subnormal
+    cases (inexact halving), by evaluation: instances of C13_fmod_remainder kept as regression anchors *)
 Theorem C13_fmod_remainder_witnesses :
   (ct_fmod binary32 (f32 1343554297) (f32 1077936128) = Ok (rt_fmod (f32 1343554297) (f32 1077936128)) /\
    rt_fmod (f32 1343554297) (f32 1077936128) = FFin false 1 0) /\
